@@ -97,6 +97,18 @@ func checks() []Check {
 			Units:       []Unit{{Name: "conv", Pkg: "pkg/socket", Test: "TestMC_C17conv", Weight: 2}},
 		},
 		{
+			ID: "C18", Level: "fault_enumeration",
+			Rule: "exhaustive single-fault (and, thorough, double-fault / fault+schedule-deviation) enumeration on the real engine: for every call index of every I/O-path system-call site the shim offers each errno of a realistic set as a deviation; an execution with one injected fault is one evaluation; distinct_nontrivial = distinct observed (callback multiset, peer byte counts) outcomes; oracle: no panic, engine serves a fresh probe connection, the non-victim connection completes its checked echo exchange and closes normally, the victim sees exactly one OnClose with a non-nil error iff it was opened, its bytes are a prefix of the echo, its descriptor is released, retryable conditions change nothing",
+			Assumptions: append([]string{"errno menu per site: read ECONNRESET/ETIMEDOUT/EAGAIN(LT); write,writev EPIPE/ECONNRESET/EAGAIN(LT); accept4 EINTR/ECONNABORTED/ECONNRESET; epoll_ctl add ENOMEM, mod ENOENT/ENOMEM, del ENOENT/EBADF; close EINTR (after really closing); epoll_wait EINTR", "faults on the eventfd and on listeners' registration are not injected"}, commonAssumptions...),
+			Units: []Unit{{Name: "faults", Pkg: ".", Tags: "verifmc", Test: "TestMC_C18", Instrument: true, Shards: 16, BudgetQuick: 150, BudgetThorough: 1500, Env: []string{"GOMAXPROCS=2"}}},
+		},
+		{
+			ID: "C19", Level: "model_checking",
+			Rule: "stateless model checking of the real engine's control API: the zero Engine handle; sequences of control calls chosen from a 10-call alphabet (Choose points, deviation-bounded) issued while running, during shutdown (second thread) and after shutdown, every schedule within the delay bound; reference state machine {empty, running, stopping, stopped} gives the expected error class of each call; Stop returning nil is checked against the ledger (pollers and listeners closed, OnShutdown ran); Register delivers exactly one result; Register with an injected epoll_ctl(ADD) failure must deliver an error",
+			Assumptions: append([]string{"Engine.Register is exercised with LeastConnections balancing only (its documentation excludes RoundRobin)", "contexts are cancelled explicitly (no wall-clock timeouts)"}, commonAssumptions...),
+			Units: []Unit{{Name: "control", Pkg: ".", Tags: "verifmc", Test: "TestMC_C19", Instrument: true, Shards: 16, BudgetQuick: 150, BudgetThorough: 1500, Env: []string{"GOMAXPROCS=2"}}},
+		},
+		{
 			ID: "C20", Level: "exploration",
 			Rule:        "bounded-exhaustive enumeration of the integer domain (every int of the stated ranges, all power-of-two neighbourhoods up to 2^62); expectations derived from interval enumeration (loop-based reference); distinct_nontrivial = distinct inputs > 2 (math) / all inputs (index, gfd), counted",
 			Assumptions: commonAssumptions,
